@@ -36,6 +36,22 @@ class CountSrc:
         self.closes += 1
 
 
+class CountProxy:
+    """only the iteration protocol is defined on the class; aclose and the counters come through __getattr__"""
+
+    def __init__(self, inner):
+        self.__dict__["_inner"] = inner
+
+    def __aiter__(self):
+        return self
+
+    def __anext__(self):
+        return self._inner.__anext__()
+
+    def __getattr__(self, name):
+        return getattr(self.__dict__["_inner"], name)
+
+
 def keyfun(spec, flavour):
     if spec is None:
         return None
@@ -48,6 +64,8 @@ def keyfun(spec, flavour):
 
 def run_impl(items, key, flavour, ops):
     src = CountSrc(items)
+    if (len(items) + len(ops)) % 3 == 2:
+        src = CountProxy(src)
     gb = a.groupby(src, key=keyfun(key, flavour)) if key is not None else a.groupby(src)
     groups = []
     obs = []
